@@ -3,6 +3,7 @@ package main
 // C33: re-allocating a bound workload without change keeps its cores (E11 maporder + affinity data flow).
 
 import (
+	"go/token"
 	"fmt"
 	"go/ast"
 	"go/types"
@@ -49,7 +50,7 @@ func mapOrderedAppends(fn *FuncNode) []moSite {
 
 func checkC33(p *Prog, r *Result, tier string) {
 	r.Technique = "map-iteration-order taint rule over resource/plugins/cpumem/schedule (a slice appended to inside a range over a map is order-tainted until a sort of that slice dominates the function's exits), data-flow rules for the affinity argument and for the element the caller takes, reachability of the affinity reorder"
-	r.Explanation = "PB before re-planning the whole origin allocation (CPU, cores, memory, NUMA memory) is subtracted from the usage, so the workload does not compete with itself for the place it already has; MO in the planner package every slice that is appended to while ranging over a Go map is sorted before the function returns (sort.Slice/SliceStable/Strings on that slice dominates every later return): the position of a plan in the returned list, and the order in which cores are considered, never depend on map iteration order; " +
+	r.Explanation = "KEEP a bound re-allocation whose validated request asks for the same CPU amount as before keeps the cores and the numa node of the origin instead of re-planning; PB before re-planning the whole origin allocation (CPU, cores, memory, NUMA memory) is subtracted from the usage, so the workload does not compete with itself for the place it already has; MO in the planner package every slice that is appended to while ranging over a Go map is sorted before the function returns (sort.Slice/SliceStable/Strings on that slice dominates every later return): the position of a plan in the returned list, and the order in which cores are considered, never depend on map iteration order; " +
 		"NO the per-NUMA-node planning loop of GetCPUPlans ranges over a sorted list of node ids whose comparator reads the affinity map (nodes holding the origin cores first), not over the map itself; " +
 		"TOPO every core-to-numa-node lookup of the planner reads resourceInfo.Capacity.NUMA; NR the resources recorded for the re-allocated workload are built from the FULL new request (delta + origin) and the chosen plan only, never from the delta request; " +
 		"AF1 CalculateRealloc passes the origin workload's CPU map as the affinity argument of GetCPUPlans and takes element 0 of the returned plans after an emptiness test; AF2 GetCPUPlans forwards that affinity map to every doGetCPUPlans call; AF3 a non-empty affinity map makes doGetCPUPlans build the origin host and reorder the new host by it, which switches the full-core planner to its affinity variant."
@@ -416,4 +417,76 @@ func checkC33(p *Prog, r *Result, tier string) {
 	// PB: the origin is put back completely before the re-plan (shared with C10/C04 under ADM)
 	r.min("PB", 1)
 	checkReallocPutBack(p, r, "PB")
+	// AMT: the planner is asked, per NUMA node and across nodes, for the request's CPURequest and MemRequest — asking a NUMA
+	// node for another amount (the limit) makes the origin node refuse a workload that fits it, and the re-plan moves it
+	if G := p.Fn("resource/plugins/cpumem/schedule.GetCPUPlans"); G == nil {
+		r.undecided("AMT", "resource/plugins/cpumem/schedule.GetCPUPlans", "", "not found")
+	} else {
+		n, bad := 0, ""
+		G.inspectBody(func(x ast.Node) bool {
+			c, ok := x.(*ast.CallExpr)
+			if !ok || G.Callee(c) == nil || G.Callee(c).Name() != "doGetCPUPlans" || len(c.Args) != 7 {
+				return true
+			}
+			n++
+			if !strings.HasSuffix(exprStr(c.Args[5]), ".CPURequest") || !strings.HasSuffix(exprStr(c.Args[6]), ".MemRequest") {
+				bad = "the planning call at " + p.pos(c) + " is asked for (`" + exprStr(c.Args[5]) + "`, `" + exprStr(c.Args[6]) + "`), not (req.CPURequest, req.MemRequest): the origin NUMA node can refuse the workload's own, unchanged allocation and the first plan comes from another node"
+			}
+			return true
+		})
+		r.min("AMT", 1)
+		if n == 0 {
+			bad = "no doGetCPUPlans call found"
+		}
+		r.check2(bad, "AMT", G.Name+" / every planning call is asked for the request's CPURequest and MemRequest", p.pos(G.Decl), "(…, req.CPURequest, req.MemRequest)")
+	}
+	// KEEP: when the (validated) new request asks for the same CPU amount as the workload already has, the workload keeps its
+	// cores and numa node without re-planning (re-planning can only move it: a workload that spans numa nodes is never
+	// produced again by the per-node-first planner once a single node has room), provided it still fits where it is
+	if C := p.Fn("resource/plugins/cpumem.Plugin.CalculateRealloc"); C == nil {
+		r.undecided("KEEP", "resource/plugins/cpumem.Plugin.CalculateRealloc", "", "not found")
+	} else {
+		why := "no branch keeps the origin's cores when the new request asks for the same CPU amount: every bound re-allocation goes through the planner and takes its first plan, which for a workload placed across numa nodes is a single-node plan on other cores as soon as one node has room"
+		C.inspectBody(func(n ast.Node) bool {
+			is, ok := n.(*ast.IfStmt)
+			if !ok {
+				return true
+			}
+			sameAmt := false
+			for _, cj := range splitOp(is.Cond, token.LAND) {
+				be, ok := unparen(cj).(*ast.BinaryExpr)
+				if !ok || be.Op != token.EQL {
+					continue
+				}
+				l, ok1 := unparen(be.X).(*ast.SelectorExpr)
+				rr, ok2 := unparen(be.Y).(*ast.SelectorExpr)
+				if ok1 && ok2 && l.Sel.Name == "CPURequest" && rr.Sel.Name == "CPURequest" && C.objOf(l.X) != C.objOf(rr.X) {
+					sameAmt = true
+				}
+			}
+			if !sameAmt {
+				return true
+			}
+			keepsMap, keepsNode := false, false
+			for _, st := range is.Body.List {
+				if as, ok := st.(*ast.AssignStmt); ok && len(as.Rhs) == 1 {
+					if sel, ok := unparen(as.Rhs[0]).(*ast.SelectorExpr); ok {
+						switch sel.Sel.Name {
+						case "CPUMap":
+							keepsMap = true
+						case "NUMANode":
+							keepsNode = true
+						}
+					}
+				}
+			}
+			if keepsMap && keepsNode {
+				why = ""
+			}
+			return true
+		})
+		r.min("KEEP", 1)
+		r.check2(why, "KEEP", C.Name+" / a re-allocation that asks for the same CPU amount keeps the cores and the numa node", p.pos(C.Decl), "if newReq.CPURequest == origin.CPURequest && fits { cpuMap = origin.CPUMap; numaNode = origin.NUMANode }")
+	}
+
 }
